@@ -4,7 +4,7 @@
    toReflectValue, type_go_*.go) transcribed over Z; the correspondence run
    ties it to the interpreter built from /repo on every check. *)
 From Coq Require Import ZArith Bool List.
-From Otto Require Import Common.Double C16.Model C16.Proofs.
+From Otto Require Import Common.Double C16.Model C16.ModelCont C16.ModelCall C16.Proofs C16.ProofsCont C16.ProofsCall.
 Import ListNotations.
 Open Scope Z_scope.
 
@@ -119,6 +119,116 @@ Theorem C16_call_shape : forall nargs variadic len,
 Proof. exact call_shape_total. Qed.
 Print Assumptions C16_call_shape.
 
+(* core: aliasing.  Every interleaving of script-side and Go-side reads, writes
+   and deletes on a bridged slice -- handed over by value (addr = false) or held
+   in a struct field reached through a pointer (addr = true) -- that does not
+   change its length behaves as ONE shared list: otto's machine (backing
+   arrays, a header per side, a fresh wrapper per access) refines it for all
+   histories, all initial contents and capacities *)
+Theorem C16_container_alias : forall addr elems cap ops,
+  forallb (stable_op (Z.of_nat (length elems))) ops = true ->
+  srun addr false (sinit elems cap) ops = vrun elems ops.
+Proof. exact slice_alias. Qed.
+Print Assumptions C16_container_alias.
+
+(* ... and on that shared list a read from the script returns the last value
+   written by Go to that cell and every other cell is untouched *)
+Theorem C16_shared_list_last_write : forall l i x,
+  0 <= i < Z.of_nat (length l) ->
+  let '(l1, _) := vstep l (GSet i x) in
+  snd (vstep l1 (JGet i)) = o_num x /\
+  forall j, 0 <= j < Z.of_nat (length l) -> j <> i -> snd (vstep l1 (JGet j)) = snd (vstep l (JGet j)).
+Proof. exact shared_list_last_write. Qed.
+Print Assumptions C16_shared_list_last_write.
+
+(* outside the stable fragment the refinement fails: growth through a struct
+   field goes to a copy, shrinking a by-value slice panics *)
+Theorem C16_field_append_lost_refuted :
+  exists elems cap ops, srun true false (sinit elems cap) ops <> srun true true (sinit elems cap) ops.
+Proof. exact field_append_lost_refuted. Qed.
+Print Assumptions C16_field_append_lost_refuted.
+
+Theorem C16_slice_shrink_panics_refuted :
+  exists elems cap ops, srun false false (sinit elems cap) ops = [o_err 9] /\
+                        srun false true (sinit elems cap) ops = [o_num 3].
+Proof. exact slice_shrink_panics_refuted. Qed.
+Print Assumptions C16_slice_shrink_panics_refuted.
+
+(* bridged maps: a script write is what Go reads (and the script reads back),
+   other keys are untouched, a delete from either side is seen by the other *)
+Theorem C16_map_alias : forall ideal m k v x,
+  conv_elem ideal v = inl x ->
+  let '(m1, _) := mstep ideal m (MJSet k v) in
+  snd (mstep ideal m1 (MGGet k)) = o_num x /\ snd (mstep ideal m1 (MJGet k)) = o_num x /\
+  (forall k', k' <> k -> snd (mstep ideal m1 (MGGet k')) = snd (mstep ideal m (MGGet k'))) /\
+  snd (mstep ideal (fst (mstep ideal m1 (MGDel k))) (MJGet k)) = o_undef /\
+  snd (mstep ideal (fst (mstep ideal m1 (MJDel k))) (MGGet k)) = o_undef.
+Proof. exact map_alias. Qed.
+Print Assumptions C16_map_alias.
+
+(* bridged structs: fieldIndexByName only ever returns an exported field that is
+   not hidden by json:"-" and that carries the name as its tag or Go name, for
+   every field table ... *)
+Theorem C16_field_lookup_sound : forall fs name i,
+  field_index fs name O = Some (i, None) ->
+  exists f, nth_error fs i = Some f /\ f_exp f = true /\ f_tag f <> -1 /\
+            ((f_tag f <> 0 /\ f_tag f = name) \/ f_name f = name).
+Proof.
+  intros fs name i H. destruct (field_index_sound fs name O i H) as (f & F1 & _ & F2).
+  exists f. rewrite Nat.sub_0_r in F1. auto.
+Qed.
+Print Assumptions C16_field_lookup_sound.
+
+(* ... and a script write under a name that resolves is what the script reads
+   back under that name and what Go finds in the field *)
+Theorem C16_struct_read_your_write : forall fs upper methods ideal s name v x p,
+  field_index fs name O = Some p -> conv_field ideal v = inl x ->
+  (fst p < length (vals s))%nat ->
+  (match snd p with Some j => j | None => O end < length (nth (fst p) (vals s) []))%nat ->
+  let '(s1, r) := tstep fs upper methods ideal s (TJSet name v) in
+  r = o_ok /\
+  snd (tstep fs upper methods ideal s1 (TJGet name)) = o_num x /\
+  snd (tstep fs upper methods ideal s1 (TGGet p)) = o_num x.
+Proof. exact struct_read_your_write. Qed.
+Print Assumptions C16_struct_read_your_write.
+
+Theorem C16_dash_tag_write_dropped_refuted :
+  exists fs upper s name v,
+    let m := trun fs upper [] false s [TJSet name v; TJGet name] in
+    let i := trun fs upper [] true s [TJSet name v; TJGet name] in
+    m = [o_ok; o_num 4] /\ i = [o_ok; o_num 8].
+Proof. exact dash_tag_write_dropped_refuted. Qed.
+Print Assumptions C16_dash_tag_write_dropped_refuted.
+
+(* structural conversion: a slice parameter is built element by element from the
+   array, each present element by the same conversion against the element
+   type, holes as the zero value, for every array and element type *)
+Theorem C16_slice_elementwise : forall ideal ids f l e gs,
+  conv ideal ids (S f) (JArr l) (TSlice e) = CV (GVSlice gs) ->
+  Forall2 (fun o g => match o with
+                      | Some x => conv ideal ids f x e = CV g
+                      | None => g = zero (S f) e
+                      end) l gs.
+Proof. exact slice_elementwise. Qed.
+Print Assumptions C16_slice_elementwise.
+
+(* a call of a non-variadic function: count mismatch is a RangeError; otherwise
+   one Go value per argument, in order, each the conversion of that argument
+   against the declared parameter *)
+Theorem C16_call_elementwise : forall ideal ids fuel tys args,
+  (length args <> length tys -> call ideal ids fuel tys false args = CE 3) /\
+  (forall gs, call ideal ids fuel tys false args = CV (GVStruct gs) ->
+     length args = length tys /\
+     Forall2 (fun at_ g => conv ideal ids fuel (fst at_) (snd at_) = CV g) (combine args tys) gs).
+Proof. exact call_fixed_elementwise. Qed.
+Print Assumptions C16_call_elementwise.
+
+(* and the numeric leaves of every such structure are the kernel above *)
+Theorem C16_leaf_is_kernel : forall f s k,
+  src_wf s = true -> conv false false (S f) (JNum s) (TNum k) = gv_of_outcome (convertNumeric s k).
+Proof. exact leaf_is_kernel. Qed.
+Print Assumptions C16_leaf_is_kernel.
+
 (* non-vacuity of the implications above *)
 Example C16_exact_hyp_met :
   src_wf (KF64, 4617315517961601024) = true /\
@@ -132,3 +242,16 @@ Proof. vm_compute. split; reflexivity. Qed.
 Example C16_variadic_hyp_met :
   arity_check 2 true 4 = 0 /\ param_for 2 true 3 = (1, true) /\ call_shape 2 true 4 = (1, 3).
 Proof. vm_compute. repeat split. Qed.
+Example C16_alias_hyp_met :
+  forallb (stable_op 2) [JSet 0 (KI64, 5); GGet 0; GSet 1 9; JGet 1; JDel 0; GGet 0] = true /\
+  srun true false (sinit [1; 2] 4) [JSet 0 (KI64, 5); GGet 0; GSet 1 9; JGet 1; JDel 0; GGet 0] =
+  [o_ok; o_num 5; o_ok; o_num 9; o_bool true; o_num 0].
+Proof. vm_compute. split; reflexivity. Qed.
+Example C16_struct_hyp_met :
+  field_index [mkF 1 0 true []; mkF 2 3 true []] 3 O = Some (1%nat, None) /\ conv_field false (KI64, 7) = inl 7.
+Proof. vm_compute. split; reflexivity. Qed.
+Example C16_elementwise_hyp_met :
+  conv false false 3 (JArr [Some (JNum (KI64, 1)); None; Some (JNum (KI64, 2))]) (TSlice (TNum KI8)) =
+  CV (GVSlice [GVI KI8 1; GVI KI8 0; GVI KI8 2]) /\
+  call false false 4 [TNum KU8; TStr] false [JNum (KI64, 5); JStr [97]] = CV (GVStruct [GVI KU8 5; GVStr [97]]).
+Proof. vm_compute. split; reflexivity. Qed.
